@@ -10,6 +10,8 @@ PROOFS = [
     ("Kdf.Props.C02Arm", ["walk_eq_spec_arm"]),
     ("Kdf.Props.C02S390x", ["walk_eq_spec_s390x", "walk_eq_specWith_library"]),
     ("Kdf.Props.C02Ppc64", ["walk_eq_spec_ppc64"]),
+    # the literals of the models equal the macro values regenerated from src/addrxlat/<arch>.c on this run
+    ("Kdf.Props.C02Consts", ["consts_x86_64", "consts_ia32", "consts_riscv64", "consts_aarch64", "consts_s390x", "consts_arm", "consts_ppc64"]),
 ]
 PROOF_MODULES = [m for m, _ in PROOFS]
 THEOREMS = [m + "." + t for m, ts in PROOFS for t in ts]
